@@ -318,3 +318,401 @@ def make_c03_judge():
             ctx.violation("unused-modules-warning-spurious", "%s: every module is used but UnusedModules names %s" % (desc, named), **w)
 
     return judge
+
+
+# ----------------------------------------------------------------------------- C07: deep snapshots and purity judge
+
+def flat_ref(r):
+    return ("REF", getattr(r, "title", None), getattr(r, "authors", None), getattr(r, "journal", None),
+            getattr(r, "pubmed_id", None), getattr(r, "comment", None))
+
+
+def _flat(v):
+    from Bio.SeqFeature import Reference
+
+    if isinstance(v, Reference):
+        return flat_ref(v)
+    if isinstance(v, (list, tuple)):
+        return [_flat(x) for x in v]
+    if isinstance(v, dict):
+        return {k: _flat(x) for k, x in v.items()}
+    return copy.deepcopy(v)
+
+
+def deep_snapshot(rec):
+    """everything C07 says must be unchanged; a missing reference list is the same as an empty one"""
+    ann = {k: _flat(v) for k, v in rec.annotations.items() if not (k == "references" and not v)}
+    feats = []
+    for f in rec.features:
+        feats.append({"type": f.type, "id": f.id, "location": repr(f.location), "qualifiers": {k: _flat(v) for k, v in (f.qualifiers or {}).items()}})
+    return {"seq": str(rec.seq), "id": rec.id, "name": rec.name, "description": rec.description,
+            "dbxrefs": list(rec.dbxrefs), "letter_annotations": {k: list(v) for k, v in rec.letter_annotations.items()},
+            "annotations": ann, "features": feats}
+
+
+def snapshot_diff(a, b):
+    """names of the parts of a record snapshot that differ"""
+    out = []
+    for k in ("seq", "id", "name", "description", "dbxrefs", "letter_annotations"):
+        if a[k] != b[k]:
+            out.append(k)
+    if a["annotations"] != b["annotations"]:
+        keys = sorted(set(a["annotations"]) | set(b["annotations"]))
+        out.extend("annotations." + k for k in keys if a["annotations"].get(k) != b["annotations"].get(k))
+    if len(a["features"]) != len(b["features"]):
+        out.append("features.count")
+    else:
+        for fa, fb in zip(a["features"], b["features"]):
+            for k in ("type", "id", "location"):
+                if fa[k] != fb[k]:
+                    out.append("features." + k)
+            if fa["qualifiers"] != fb["qualifiers"]:
+                keys = sorted(set(fa["qualifiers"]) | set(fb["qualifiers"]))
+                out.extend("qualifiers." + k for k in keys if fa["qualifiers"].get(k) != fb["qualifiers"].get(k))
+    return sorted(set(out))
+
+
+def outcome_kind(obs):
+    if obs.error is not None:
+        return "raised-" + type(obs.error).__name__
+    return "warned" if obs.warnings and obs.unused_sets else "returned"
+
+
+def make_c07_judge():
+    def judge(obs, ctx):
+        if obs.pre is None:
+            return
+        ctx.count("c07_purity_checks")
+        kind = outcome_kind(obs)
+        ctx.hist("c07_outcome", kind)
+        ids = ids_of(obs)
+        for rid, a, b in zip(ids, obs.pre, obs.post):
+            if a != b:
+                diff = snapshot_diff(a, b)
+                ex = ""
+                for fa, fb in zip(a["features"], b["features"]):
+                    if fa["qualifiers"] != fb["qualifiers"]:
+                        ex = " e.g. qualifiers %r -> %r" % (fa["qualifiers"], fb["qualifiers"])
+                        break
+                ctx.violation("input-mutated:%s:%s" % (",".join(diff), kind if not kind.startswith("raised") else "raised"),
+                              "after assemble() %s, input record %r differs in %s%s" % (kind, rid, diff, ex[:300]),
+                              record=rid, changed=diff, outcome=kind, tag=obs.tag)
+                return
+
+    return judge
+
+
+def outcome_signature(obs_or_res):
+    """comparable summary of an assemble outcome (product or exception)"""
+    err = getattr(obs_or_res, "error", None) if not isinstance(obs_or_res, dict) else obs_or_res.get("error")
+    prod = getattr(obs_or_res, "product", None) if not isinstance(obs_or_res, dict) else obs_or_res.get("product")
+    if err is not None:
+        sig = ["raised", type(err).__name__]
+        if hasattr(err, "start_overhang"):
+            sig.append(str(err.start_overhang).upper())
+        if hasattr(err, "duplicates"):
+            sig.append(sorted(getattr(getattr(d, "record", None), "id", "?") for d in err.duplicates))
+        return sig
+    snap = deep_snapshot(prod)
+    snap["features"] = sorted(snap["features"], key=lambda f: (f["location"], f["type"], sorted(map(str, f["qualifiers"].items()))))
+    return ["product", snap]
+
+
+# ----------------------------------------------------------------------------- product geometry shared by C08/C09/C10/C19
+
+def product_layout(obs):
+    """Where each retained nucleotide of each input ended up in the product.
+
+    Returns None when the call is outside the string model or did not return the
+    model's product; else a list of candidate layouts (one per rotation offset at
+    which the product equals the closed form - more than one only for periodic
+    sequences).  A layout is {"N": product length, "segments": [(record index
+    (0 = vector, 1+i = module i in argument order), fragment start in that
+    record, length, offset in product)], "posmap": {(record index, position): product position}}."""
+    m = obs.model = obs.model or model_of(obs)
+    if not m["ok"] or m["chain"] is None or obs.product is None:
+        return None
+    want = expected_text(m)
+    got = str(obs.product.seq).upper()
+    N = len(want)
+    if len(got) != N or N == 0:
+        return None
+    dd = want + want
+    offs = []
+    i = dd.find(got)
+    while i != -1 and i < N:
+        offs.append(i)
+        i = dd.find(got, i + 1)
+    if not offs:
+        return None
+    layouts = []
+    order = [0] + [1 + c for c in m["chain"]]
+    for d in offs[:4]:
+        segs = []
+        posmap = {}
+        off = 0
+        for ri in order:
+            start, text = m["frags"][ri][0], m["frags"][ri][1]
+            n_r = len(m["texts"][ri])
+            segs.append((ri, start, len(text), (off - d) % N))
+            for j in range(len(text)):
+                posmap[(ri, (start + j) % n_r)] = (off + j - d) % N
+            off += len(text)
+        layouts.append({"N": N, "segments": segs, "posmap": posmap, "offset": d})
+    return layouts
+
+
+def _uid(f):
+    u = (f.qualifiers or {}).get("uid")
+    return u[0] if u else None
+
+
+def _plain_quals(f, drop=("citation",)):
+    return {k: list(v) if isinstance(v, (list, tuple)) else v for k, v in (f.qualifiers or {}).items() if k not in drop}
+
+
+def make_c08_judge():
+    """annotations inherited faithfully (features matched through their unique `uid` qualifier)"""
+    from .denote import denote, same_denotation, parts_of
+
+    def judge(obs, ctx):
+        layouts = product_layout(obs)
+        if layouts is None:
+            ctx.count("c08_not_judged")
+            return
+        recs = [obs.vec.record] + [m.record for m in obs.mods]
+        got = {}
+        dup = []
+        for f in obs.product.features:
+            u = _uid(f)
+            if u is None:
+                continue
+            if u in got:
+                dup.append(u)
+            got[u] = f
+        ctx.count("c08_judged")
+        w = witness(obs)
+        best = None
+        for lay in layouts:
+            problems = []
+            N = lay["N"]
+            expected = {}
+            nsurv = ndrop = 0
+            for ri, r in enumerate(recs):
+                n_r = len(r)
+                for f in r.features:
+                    u = _uid(f)
+                    if u is None or f.location is None:
+                        continue
+                    d = denote(f.location, n_r)
+                    inside = all((ri, p) in lay["posmap"] for p, _ in d)
+                    shape = ("compound" if len(f.location.parts) > 1 else "simple") + ("/past-end" if any(int(p.end) > n_r for p in f.location.parts) else "")
+                    if inside:
+                        nsurv += 1
+                        expected[u] = ([(lay["posmap"][(ri, p)], st) for p, st in d], f, shape)
+                    else:
+                        ndrop += 1
+            for u, (d, f0, shape) in expected.items():
+                if u not in got:
+                    problems.append(("feature-lost:" + shape.split("/")[0], "feature %s (%s, %s) lies inside the retained fragment of %s but is missing from the product" % (
+                        u, f0.type, f0.location, u.split(".")[0])))
+                    continue
+                g = got[u]
+                d1 = denote(g.location, N)
+                stranded = all(st in (1, -1) for _, st in d)
+                if [st for _, st in d1] != [st for _, st in d] and len(d1) == len(d):
+                    problems.append(("feature-strand-changed", "feature %s: strand %s became %s" % (u, f0.location, g.location)))
+                elif not same_denotation(d, d1, N, stranded=True):
+                    problems.append(("feature-moved:" + shape.split("/")[0], "feature %s (%s in its source) is at %s in the product, which does not denote the same nucleotides" % (u, f0.location, g.location)))
+                if g.type != f0.type or _plain_quals(g) != _plain_quals(f0):
+                    problems.append(("feature-metadata-changed", "feature %s: type/qualifiers %r -> %r" % (u, (f0.type, _plain_quals(f0)), (g.type, _plain_quals(g)))))
+            for u, g in got.items():
+                if u not in expected:
+                    problems.append(("feature-not-an-image", "product feature %s at %s is not the image of an input feature lying inside a retained fragment (a feature overlapping a discarded region must be dropped, not truncated or shifted)" % (u, g.location)))
+            for u in dup:
+                problems.append(("feature-duplicated", "feature %s appears twice in the product" % u))
+            if best is None or len(problems) < len(best[0]):
+                best = (problems, nsurv, ndrop)
+            if not problems:
+                break
+        problems, nsurv, ndrop = best
+        ctx.count("c08_features_expected_to_survive", nsurv)
+        ctx.count("c08_features_expected_dropped", ndrop)
+        if nsurv and ndrop:
+            ctx.count("c08_nontrivial")
+        seen = set()
+        for mech, msg in problems:
+            if mech not in seen:
+                seen.add(mech)
+                ctx.violation(mech, msg, **w)
+
+    return judge
+
+
+def make_c09_judge(check_genbank=True):
+    """provenance + GenBank completeness"""
+    import io
+    from .denote import denote
+
+    def judge(obs, ctx):
+        from Bio import SeqIO
+        from moclo.record import CircularRecord
+
+        if obs.product is None:
+            return
+        p = obs.product
+        w = witness(obs)
+        ctx.count("c09_judged")
+        N = len(p)
+        if not isinstance(p, CircularRecord):
+            ctx.violation("product-not-circular-record", "assemble returned a %s" % type(p).__name__, **w)
+        topo = p.annotations.get("topology")
+        if not isinstance(topo, str) or topo.lower() != "circular":
+            ctx.violation("product-topology", "product topology annotation is %r" % (topo,), **w)
+        want_id = obs.kwargs.get("id", "assembly")
+        want_name = obs.kwargs.get("name", "assembly")
+        if p.id != want_id or p.name != want_name:
+            ctx.violation("product-id-name", "requested id/name %r/%r, product carries %r/%r" % (want_id, want_name, p.id, p.name), **w)
+        comment = p.annotations.get("comment", "")
+        text = "\n".join(comment) if isinstance(comment, (list, tuple)) else str(comment)
+        ids = ids_of(obs)
+        missing = [i for i in ids if i not in text]
+        if missing:
+            ctx.violation("comment-omits-input", "the product comment %r does not name %s" % (text[:200], missing), **w)
+        # generated provenance features of this call
+        gen_feats = [f for f in p.features if f.type == "source" and _uid(f) is None]
+        own = [f for f in gen_feats if (f.qualifiers.get("plasmid") or [None])[0] in ids or f.qualifiers.get("plasmid") in ids]
+        m = obs.model = obs.model or model_of(obs)
+        if m["ok"] and m["chain"] is not None:
+            nfrag = 1 + len(m["chain"])
+            if len(own) != nfrag:
+                ctx.violation("source-feature-count", "%d generated source feature(s) naming the inputs for %d retained fragment(s)" % (len(own), nfrag), **w)
+            ctx.count("c09_fragment_counts_checked")
+        cover = [0] * N
+        seq = str(p.seq).upper()
+        texts = {rid: str(r.seq).upper() for rid, r in zip(ids, [obs.vec.record] + [x.record for x in obs.mods])}
+        for f in own:
+            d = denote(f.location, N)
+            for pos, _ in d:
+                cover[pos] += 1
+            plasmid = f.qualifiers.get("plasmid")
+            plasmid = plasmid[0] if isinstance(plasmid, (list, tuple)) else plasmid
+            t = "".join(seq[pos] for pos, _ in d)
+            src = texts.get(plasmid, "")
+            if not t or len(t) > len(src) or t not in src + src[: len(t) - 1]:
+                ctx.violation("source-feature-not-verbatim", "source feature %s naming %r covers %r..., which does not occur in that plasmid" % (f.location, plasmid, t[:30]), **w)
+        if own and any(c != 1 for c in cover):
+            holes = sum(1 for c in cover if c == 0)
+            twice = sum(1 for c in cover if c > 1)
+            ctx.violation("source-features-do-not-tile:" + ("gap" if holes else "overlap"),
+                          "generated source features leave %d nucleotide(s) uncovered and cover %d more than once (product %d nt)" % (holes, twice, N), **w)
+        # provenance features inherited from earlier levels must sit inside one of this call's own
+        for f in gen_feats:
+            if f in own:
+                continue
+            d = set(pos for pos, _ in denote(f.location, N))
+            if not any(d <= set(pos for pos, _ in denote(o.location, N)) for o in own):
+                ctx.violation("inner-provenance-not-nested", "inherited source feature %s (plasmid %r) is not nested inside a source feature of this assembly" % (f.location, f.qualifiers.get("plasmid")), **w)
+            ctx.count("c09_inner_provenance_checked")
+        if not check_genbank:
+            return
+        try:
+            buf = io.StringIO()
+            SeqIO.write(p, buf, "genbank")
+            buf.seek(0)
+            back = SeqIO.read(buf, "genbank")
+        except Exception as e:
+            ctx.violation("genbank-roundtrip-raises:%s" % type(e).__name__, "writing/reading the product as GenBank raised %s: %s" % (type(e).__name__, str(e)[:200]), **w)
+            return
+        ctx.count("c09_genbank_roundtrips")
+        if str(back.seq).upper() != seq:
+            ctx.violation("genbank-sequence-changed", "sequence differs after GenBank write+read", **w)
+        if back.annotations.get("topology") != "circular":
+            ctx.violation("genbank-topology-lost", "topology after round trip: %r" % back.annotations.get("topology"), **w)
+
+        def key(f):
+            return (f.type, tuple((int(x.start), int(x.end), 1 if x.strand is None else x.strand) for x in f.location.parts))
+
+        a = sorted(key(f) for f in p.features)
+        b = sorted(key(f) for f in back.features)
+        if a != b:
+            ctx.violation("genbank-features-changed", "feature types/locations differ after GenBank write+read: only before %s, only after %s" % (
+                [x for x in a if x not in b][:3], [x for x in b if x not in a][:3]), **w)
+
+    return judge
+
+
+def make_c10_judge():
+    """citations survive with consistent numbering"""
+    import re
+
+    BR = re.compile(r"^\[(\d+)\]$")
+
+    def judge(obs, ctx):
+        if obs.product is None:
+            return
+        p = obs.product
+        w = witness(obs)
+        recs = [obs.vec.record] + [m.record for m in obs.mods]
+        pre = obs.pre  # deep snapshots taken before the call (citations as written by the user)
+        if pre is None:
+            return
+        src = {}
+        for ri, snap in enumerate(pre):
+            refs = snap["annotations"].get("references", [])
+            for f in snap["features"]:
+                u = (f["qualifiers"].get("uid") or [None])[0]
+                cit = f["qualifiers"].get("citation")
+                if u is not None and cit:
+                    resolved = []
+                    for c in cit:
+                        mm = BR.match(c) if isinstance(c, str) else None
+                        resolved.append(refs[int(mm.group(1)) - 1] if mm and 0 < int(mm.group(1)) <= len(refs) else ("UNRESOLVED", c))
+                    src[u] = resolved
+        ctx.count("c10_judged")
+        prefs = p.annotations.get("references")
+        flat = [flat_ref(r) for r in (prefs or [])]
+        ncited = 0
+        for f in p.features:
+            u = _uid(f)
+            cit = (f.qualifiers or {}).get("citation")
+            if u is None or u not in src:
+                if cit and u is not None:
+                    ctx.violation("citation-appeared", "product feature %s carries citation %r but its source feature cited nothing" % (u, cit), **w)
+                continue
+            if not cit:
+                ctx.violation("citation-lost", "feature %s cited %d reference(s) in its source, its image in the product cites none" % (u, len(src[u])), **w)
+                continue
+            ncited += 1
+            got = []
+            for c in cit:
+                mm = BR.match(c) if isinstance(c, str) else None
+                if mm is None:
+                    ctx.violation("citation-not-bracketed-index", "feature %s: citation qualifier %r is not in GenBank bracketed-index form" % (u, c if isinstance(c, str) else type(c).__name__), **w)
+                    got = None
+                    break
+                i = int(mm.group(1))
+                if prefs is None or not 0 < i <= len(flat):
+                    ctx.violation("citation-dangling", "feature %s cites [%d] but the product has %s reference(s)" % (u, i, "no" if prefs is None else len(flat)), **w)
+                    got = None
+                    break
+                got.append(flat[i - 1])
+            if got is not None and got != src[u]:
+                ctx.violation("citation-points-to-other-reference", "feature %s cited %r in its source, its image cites %r" % (
+                    u, [r[1] for r in src[u]], [r[1] for r in got]), **w)
+        cited = set(r for rs in src.values() for r in rs)
+        dupes = [r for r in set(flat) if r in cited and flat.count(r) > 1]
+        if dupes:
+            ctx.violation("cited-reference-listed-twice", "reference %r occurs %d times in the product's reference list" % (dupes[0][1], flat.count(dupes[0])), **w)
+        if ncited:
+            ctx.count("c10_products_with_surviving_citations")
+            ctx.count("c10_surviving_cited_features", ncited)
+        # inputs' own indices unchanged (shared with C07)
+        for rid, a, b in zip(ids_of(obs), obs.pre, obs.post):
+            ca = [f["qualifiers"].get("citation") for f in a["features"]]
+            cb = [f["qualifiers"].get("citation") for f in b["features"]]
+            if ca != cb:
+                ctx.violation("input-citation-indices-changed", "citation qualifiers of input %r changed: %r -> %r" % (rid, ca, cb), **w)
+                break
+
+    return judge
